@@ -249,6 +249,54 @@ func init() {
 	})
 }
 
+// sm9-wrapzero: key encapsulation around the rule "K all zero: draw again" (GM/T 0044.3/.4 key encapsulation, step A5/A6).
+// For klen = 1 the KDF output is 00 for one nonce in 256: the recorder searches (through the library itself) for a nonce
+// after which WrapKey consumes a second chunk, and offers a spare nonce that is known to give a non-zero key on its own.
+// The event carries g^r for both nonces and e(C, de_B) for the C that came out; the specification (TWrapK0) follows the
+// standard: the first nonce is skipped entirely, C = [r2]Q_B, K = KDF(C||g^r2||ID), and unwrapping returns K.
+func init() {
+	RegisterRecorder("sm9-wrapzero", func(r *mrand.Rand, log func(map[string]interface{})) {
+		h := &sm9rec{r: mrand.New(mrand.NewSource(r.Int63())), log: log}
+		log(map[string]interface{}{"op": "new", "idx": -1})
+		h.encMasterGen(false)
+		uid := rbytes(h.r, 1+h.r.Intn(20))
+		eu := h.encUser(uid, 3)
+		pub := h.emaster.PublicKey()
+		var spare []byte
+		for {
+			spare = sm9Chunk(h.r)
+			s := &sm9Script{chunks: [][]byte{spare}}
+			if _, _, err := sm9.WrapKey(s, pub, uid, 3, 1); err == nil && s.used == 1 {
+				break
+			}
+		}
+		base := rbytes(h.r, 30)
+		for k := 1; k < 20000; k++ {
+			c := make([]byte, 32)
+			copy(c, base)
+			c[0] &= 0x7f
+			c[30], c[31] = byte(k>>8), byte(k)
+			s := &sm9Script{chunks: [][]byte{c, spare}}
+			key, out, err := sm9.WrapKey(s, pub, uid, 3, 1)
+			if err == nil && s.used == 1 {
+				continue
+			}
+			ev := map[string]interface{}{"op": "wrapk0", "uid": hx(uid), "hid": 3, "klen": 1, "script": s.hexes(), "used": s.used, "err": err != nil,
+				"key": hx(key), "out": hx(out), "w1": "", "w2": "", "wc": "", "ukey": "", "uerr": true}
+			g := vh.Pair(sm9G1(pub.Bytes()), vh.Gen2)
+			ev["w1"], ev["w2"] = hx(sm9Pow(g, c)), hx(sm9Pow(g, spare))
+			if err == nil && len(out) == 65 {
+				ukey, uerr := sm9.UnwrapKey(eu, uid, out, 1)
+				ev["ukey"], ev["uerr"] = hx(ukey), uerr != nil
+				ev["wc"] = hx(vh.Pair(sm9G1(out), sm9G2(eu.Bytes())).Marshal())
+			}
+			log(ev)
+			return
+		}
+		panic("harness: sm9-wrapzero: no nonce with K = 00 among 20000")
+	})
+}
+
 // ---------------------------------------------------------------- master and user keys
 
 func (h *sm9rec) signMasterGen(edge bool) {
